@@ -418,7 +418,7 @@ Inductive deliver_course (c : config) (e : env) (evs : list event) (sp : spropos
                                                       | None => [] end |})
            end
          else o_ret res = e_deadline e /\ o_submit res = None
-     | None => o_ret res = e_deadline e /\ o_submit res = None
+     | None => o_ret res = N.min (e_deadline e) (all_failed_at plans) /\ o_submit res = None
      end) ->
     deliver_course c e evs sp res.
 
@@ -1125,4 +1125,18 @@ Proof.
     unfold relay_plan. assert (He : existsb (Nat.eqb i) (candidates c w a) = true)
       by (apply existsb_exists; exists i; split; [exact Hin|apply Nat.eqb_refl]).
     rewrite He, Hcan. cbn [andb]. eapply plan_ok_delivery; eauto.
+Qed.
+
+(* Propose never returns later than the context it was given allows (fake ms since the call) *)
+Lemma returns_by_deadline : forall c e d, o_ret (propose c e d) <= e_deadline e.
+Proof.
+  intros c e d. unfold propose. destruct (sign_phase c e d) as [evs [[p sp]|]]; [|cbn; lia].
+  destruct (deliver_phase_course c e evs sp) as [Hb|Hb _|w a res Hb Ha Hc plans fd _ _ _ Hs].
+  - cbn; lia.
+  - cbn; lia.
+  - destruct fd as [t|].
+    + destruct (t <? e_deadline e) eqn:Hdl.
+      * destruct Hs as (-> & _). lia.
+      * destruct Hs as (-> & _). lia.
+    + destruct Hs as (-> & _). lia.
 Qed.
